@@ -1588,6 +1588,8 @@ func runPure(e *env, seed uint64, n int, thorough bool) {
 
 func main() {
 	mode := flag.String("mode", "runs", "runs | pure")
+	extractSync := flag.String("extract-sync", "", "translator mode: list the synchronisation operations of the package in this directory")
+	genSync := flag.String("gen", "GenSyncSites.v", "output of -extract-sync")
 	seed := flag.Uint64("seed", 1, "PRNG seed")
 	n := flag.Int("n", 40, "number of runs / random cases per family")
 	out := flag.String("out", "", "output directory")
@@ -1597,6 +1599,9 @@ func main() {
 	tier := flag.String("tier", "quick", "quick | thorough")
 	replay := flag.String("replay", "", "replay file")
 	flag.Parse()
+	if *extractSync != "" {
+		os.Exit(doExtractSync(*extractSync, *genSync))
+	}
 
 	e := &env{python: *python, tool: *tool, out: *out, cap: runtime.NumCPU()}
 	if *capFlag != 0 && e.cap != *capFlag {
